@@ -15,11 +15,13 @@ vars == <<m, i, fin, cf>>
 \* 3: run into opcode 0x00 after a NOP
 \* 4: interrupt-to-STOP: JR main; isr: ST (0xFE),R1... : isr writes 0x5A to FE and STOPs; main enables and spins
 \* 5: copies input FC to output FF and MISR to FE, forever
+\* 6: copies the board's input port (0xF0) to FF and its status register (0xF1) to FE, forever
 Images == << <<68, 240, 31, 255, 32, 250>>,
              <<251, 3, 16, 240, 31, 254, 1>>,
              <<2, 0, 2>>,
              <<32, 5, 251, 90, 31, 254, 1, 251, 239, 64, 251, 1, 31, 249, 8, 32, 254>>,
-             <<255, 252, 16, 240, 31, 255, 255, 249, 17, 241, 31, 254, 32, 242>> >>
+             <<255, 252, 16, 240, 31, 255, 255, 249, 17, 241, 31, 254, 32, 242>>,
+             <<255, 240, 16, 240, 31, 255, 255, 241, 17, 241, 31, 254, 32, 242>> >>
 Budgets == IF Tier = "quick" THEN {0, 1, 2, 9, 40} ELSE {0, 1, 2, 3, 9, 25, 40, 90}
 Cand(N) == {0, 1, 2, 7, N - 1, N, N + 5} \cap (0..200)
 IntSets(N) == IF Tier = "quick" THEN {{}, {0}, {7}, {0, 2}, {1, 7}, {N - 1} \cap (0..200), {N} \cap (0..200), {2, 7, N + 5}}
@@ -27,12 +29,19 @@ IntSets(N) == IF Tier = "quick" THEN {{}, {0}, {7}, {0, 2}, {1, 7}, {N - 1} \cap
 ResetSets(N) == IF Tier = "quick" THEN {{}, {0}, {7}, {2, 7}, {N - 1} \cap (0..200), {N}}
                 ELSE SUBSET ({0, 2, 7, N - 1, N} \cap (0..200))
 Inputs == {<<0, 0, 0, 0>>, <<200, 1, 2, 255>>}
+\* board configurations given on the command line (voltages in millivolts)
+Boards == { [di1 |-> 0, temp |-> 0, j1 |-> FALSE, j2 |-> FALSE, ai1 |-> 0, ai2 |-> 0, uio1 |-> FALSE, uio2 |-> FALSE, uio3 |-> FALSE],
+            [di1 |-> 171, temp |-> 2500, j1 |-> TRUE, j2 |-> FALSE, ai1 |-> 1, ai2 |-> 5000, uio1 |-> TRUE, uio2 |-> FALSE, uio3 |-> TRUE],
+            [di1 |-> 255, temp |-> 0, j1 |-> FALSE, j2 |-> TRUE, ai1 |-> 4999, ai2 |-> 0, uio1 |-> FALSE, uio2 |-> TRUE, uio3 |-> FALSE] }
 
-Configs == { [p |-> p, n |-> n, ints |-> is, resets |-> rs, inr |-> inp] :
-               p \in 1..Len(Images), n \in Budgets, is \in UNION {IntSets(k) : k \in Budgets}, rs \in UNION {ResetSets(k) : k \in Budgets}, inp \in Inputs }
-ConfigsOf == { c \in Configs : c.ints \in IntSets(c.n) /\ c.resets \in ResetSets(c.n) }
+Configs == { [p |-> p, n |-> n, ints |-> is, resets |-> rs, inr |-> inp, bd |-> b] :
+               p \in 1..Len(Images), n \in Budgets, is \in UNION {IntSets(k) : k \in Budgets}, rs \in UNION {ResetSets(k) : k \in Budgets}, inp \in Inputs, b \in Boards }
+\* board configurations other than the default only with the program that looks at the board (6) and two budgets
+ConfigsOf == { c \in Configs : c.ints \in IntSets(c.n) /\ c.resets \in ResetSets(c.n)
+                               /\ (c.bd.di1 # 0 => c.p = 6 /\ c.n \in {9, 40} /\ Cardinality(c.ints) <= 1 /\ Cardinality(c.resets) <= 1) }
 
-MC(c) == [DefaultConfig EXCEPT !.inr = [k \in 0..3 |-> c.inr[k + 1]]]
+MC(c) == [inr |-> [k \in 0..3 |-> c.inr[k + 1]], di1 |-> c.bd.di1, temp |-> c.bd.temp, j1 |-> c.bd.j1, j2 |-> c.bd.j2,
+          ai1 |-> c.bd.ai1, ai2 |-> c.bd.ai2, uio1 |-> c.bd.uio1, uio2 |-> c.bd.uio2, uio3 |-> c.bd.uio3]
 Init == /\ cf \in ConfigsOf
         /\ m = RunnerStart(MC(cf), Images[cf.p], 16, -1)
         /\ i = 0 /\ fin = (cf.n = 0)
@@ -56,7 +65,7 @@ Code(e, x) == LET r == VerifyError(e, x) IN CASE r = "ok" -> 0 [] r = "state" ->
 ASSUME PrintT(<<"REPLAY", ToJson([kind |-> "exps", exps |-> ExpSeq])>>)
 SetSeq(S) == LET RECURSIVE F(_) F(T) == IF T = {} THEN <<>> ELSE LET x == CHOOSE y \in T : \A z \in T : y <= z IN <<x>> \o F(T \ {x}) IN F(S)
 Emit == fin => PrintT(<<"REPLAY", ToJson([p |-> cf.p, image |-> Images[cf.p], n |-> cf.n, ints |-> SetSeq(cf.ints), resets |-> SetSeq(cf.resets),
-                                          inr |-> cf.inr, cycles |-> i, s |-> ProjNoRam(m),
+                                          inr |-> cf.inr, bd |-> cf.bd, cycles |-> i, s |-> ProjNoRam(m),
                                           fe |-> m.outr[0], ff |-> m.outr[1], st |-> m.st,
                                           ver |-> [k \in 1..64 |-> Code(ExpSeq[k], m)]])>>)
 =====================================================================
